@@ -241,3 +241,24 @@ Lemma order_matters :
   | Err _ => False
   end.
 Proof. vm_compute. repeat split; reflexivity. Qed.
+
+(* ---------- if-statements are NOT translated sequentially in general (known, unrepaired) ---------- *)
+(* if a > 0 then a := a - 5; b := 1; else a := a; b := 2; end if;   from a = b = 3 *)
+Definition ifdep_stmt : stmt :=
+  SIf [(EBin BGt (ERef (RVar 1%positive)) (ENum 0),
+        [(1%positive, EBin BSub (ERef (RVar 1%positive)) (ENum (z2q 5))); (2%positive, ENum 1)])]
+      [(1%positive, ERef (RVar 1%positive)); (2%positive, ENum (z2q 2))].
+Definition ifdep_rc : cenv := {| c_sc := fun _ => z2q 3; c_der := fun _ => 0; c_arr := fun _ _ => 0; c_i := 0%Z |}.
+Definition ifdep_rm : menv := {| m_sc := fun _ => VNum (z2q 3); m_der := fun _ => 0; m_arr := fun _ _ => 0; m_i := 0%Z |}.
+Lemma ifdep_differs :
+  match tr_stmts good_table [ifdep_stmt] with
+  | Ok l =>
+      (* sequential execution: a = -2, b = 1 *)
+      val_is (exec (fun _ q => q) [ifdep_stmt] ifdep_rm) 1%positive (-2) = true /\
+      val_is (exec (fun _ q => q) [ifdep_stmt] ifdep_rm) 2%positive 1 = true /\
+      (* the generated function: a = -2 but b = 2 (b's condition sees the updated a) *)
+      qc_is (ca_eval (fun _ q => q) (apply_assigns l sigma0 1%positive) ifdep_rc) (-2) = true /\
+      qc_is (ca_eval (fun _ q => q) (apply_assigns l sigma0 2%positive) ifdep_rc) 2 = true
+  | Err _ => False
+  end.
+Proof. vm_compute. repeat split; reflexivity. Qed.
